@@ -136,6 +136,12 @@ func Universe(size string) []SnapVariant {
 		{Calls: []stack.Call{MkCall("main.spawnA", "/src/app/spawn.go", 30, 0, stack.Args{})}},
 		{Calls: []stack.Call{MkCall("main.spawnB", "/src/app/spawn.go", 30, 0, stack.Args{})}},
 	}
+	// creator stacks of several calls (race reports print the whole creation stack): the same first call, another
+	// deeper one
+	creators = append(creators,
+		stack.Stack{Calls: []stack.Call{MkCall("main.spawnA", "/src/app/spawn.go", 30, 0, stack.Args{}), MkCall("main.startX", "/src/app/start.go", 40, 0, stack.Args{})}},
+		stack.Stack{Calls: []stack.Call{MkCall("main.spawnA", "/src/app/spawn.go", 30, 0, stack.Args{}), MkCall("main.startY", "/src/app/start.go", 41, 0, stack.Args{})}},
+	)
 	full := size == "large"
 	if full {
 		sleeps = []int{0, 7, 90}
@@ -160,6 +166,9 @@ func Universe(size string) []SnapVariant {
 							if !base && !rep {
 								continue
 							}
+						}
+						if (ci == 3 || ci == 4) && !(si == 0 && li == 0 && sli == 0) {
+							continue // the multi-call creators only with the base state/lock/sleep (every size)
 						}
 						if size == "medium" && sli == 1 && ci == 2 && ki%2 == 1 {
 							continue
